@@ -122,7 +122,11 @@ fn gen_header(rng: &mut Rng, allow_refused: bool) -> String {
     }
 }
 
-const JSON_BODIES: [&str; 11] = [
+const JSON_BODIES: [&str; 14] = [
+    // what a server that does not know the newer introspection fields answers (graphql-js wording)
+    "{\"errors\":[{\"message\":\"Cannot query field \\\"isOneOf\\\" on type \\\"__Type\\\".\",\"locations\":[{\"line\":1,\"column\":100}]}]}",
+    "{\"errors\":[{\"message\":\"Cannot query field \\\"specifiedByURL\\\" on type \\\"__Type\\\". Did you mean \\\"specifiedByUrl\\\"?\"}]}",
+    "{\"data\":null,\"errors\":[{\"message\":\"Cannot query field \\\"isOneOf\\\" on type \\\"__Type\\\".\"},{\"message\":\"Cannot query field \\\"specifiedByURL\\\" on type \\\"__Type\\\".\"}]}",
     // escapes, surrogate pairs, integer extremes, simple floats: "semantically unchanged" must hold
     "{\"data\":{\"s\":\"caf\\u00e9 \\ud83d\\ude00 \\/ \\\"q\\\" \\\\ \\n\\t\",\"k\\u00e9y\":1},\"n\":[0,-1,9223372036854775807,-9223372036854775808,18446744073709551615,0.5,1.25,1e2,-0.0],\"b\":[true,false,null],\"e\":{},\"a\":[]}",
     " \n{ \"data\" : { \"__schema\" : { \"types\" : [ ] , \"queryType\" : null } } }\n ",
@@ -181,7 +185,8 @@ pub fn generate(seed: u64, w: &World, with_big: bool, with_stalls: bool) -> Valu
     let served = if rng.chance(1, 30) {
         // a JSON body whose length sits on or next to a typical buffer boundary, optionally with a
         // multi-byte character straddling that boundary
-        let b = *rng.pick(&[4096usize, 8192, 16384, 32768, 65536]);
+        // (rarely: 16 MiB, the size of a very large real-world introspection result)
+        let b = if rng.chance(1, 12) { 16 * 1024 * 1024 } else { *rng.pick(&[4096usize, 8192, 16384, 32768, 65536]) };
         json!({"kind": "sized", "boundary": b, "delta": rng.range(0, 2) as i64 - 1, "multibyte": rng.chance(1, 2)})
     } else if rng.chance(1, 40) {
         json!({"kind": "deep"})
@@ -497,6 +502,8 @@ fn build_reply(r: &Value, served_json: &dyn Fn(&Value) -> Vec<u8>) -> Built {
                     either_ok = true;
                 }
                 let chunk = r["chunk"].as_u64().unwrap_or(64).max(1) as usize;
+                // (very large bodies are not sent in chunks of a few bytes)
+                let chunk = if body.len() > (1 << 20) { chunk.max(1000) } else { chunk };
                 let ext = if r["chunk_ext"].as_bool().unwrap_or(false) { ";ext=1;q=\"x\"" } else { "" };
                 for (i, c) in body.chunks(chunk).enumerate() {
                     // only on the first chunks: HTTP clients cap the total size of chunk extensions
